@@ -527,7 +527,7 @@ func (s *c15Scratch) run(path int, text string) (int, int, string) {
 	}
 	if mask == 0 && roOnly == 0 {
 		s.base = after // the WAL may have grown legitimately (INSERT position)
-		if after.walSize > 1<<20 {
+		if after.walSize > 8<<20 {
 			s.build()
 		}
 		return 0, 0, ec
@@ -560,7 +560,7 @@ func (s *c15Scratch) run(path int, text string) (int, int, string) {
 		want.jm, want.ac, want.sync, want.qo = "wal", 0, 0, 0
 		want.roQO, want.roSync, want.roAC = s.base.roQO, s.base.roSync, s.base.roAC
 		m, ro := c15Diff(want, again)
-		if m == 0 && ro == 0 && again.walSize > 0 && len(again.main) < 1<<18 && again.walSize < 1<<20 {
+		if m == 0 && ro == 0 && again.walSize > 0 && len(again.main) < 1<<18 && again.walSize < 8<<20 {
 			s.base = again
 			return mask, roOnly, ec
 		}
